@@ -38,7 +38,8 @@ def main():
         with open(a.replay) as f:
             v = json.load(f)
         case = v.get("replay", v)
-        job = {"kind": "replay", "case": case, "seed": a.seed, "hashseed": v.get("hashseed", 0)}
+        hs = case.get("job", {}).get("hashseed", v.get("hashseed", 0)) if isinstance(case, dict) else 0
+        job = {"kind": "replay", "case": case, "seed": case.get("job", {}).get("seed", a.seed), "hashseed": hs}
         res = runner.run_jobs([job], parallel=1, timeout=600)
         mine = [x for r in res for x in r.get("violations", []) if x["prop"] == pid]
         known = runner.load_known()
